@@ -1042,6 +1042,8 @@ int main(int, char**)
 		std::string ans = handle(r);
 		gfree_all();
 		if (sh->asan_errors != asan0 && !ans.empty() && ans.back() == '}') { ans.pop_back(); ans += ",\"asan\":" + std::to_string(sh->asan_errors - asan0) + "}"; }
+		// C_Initialize args=sched outside RUNTHREADS: the callbacks still police the mutex protocol (a re-lock of an owned mutex would be a self-deadlock with real mutexes)
+		if (!S.error.empty() && !ans.empty() && ans.back() == '}') { ans.pop_back(); ans += ",\"serr\":\"" + S.error + "\"}"; }
 		reply(ans);
 	}
 	if (depth > 0) { sh->back_ok = 0; _exit(95); }
